@@ -5,6 +5,8 @@ import ClarabelModel.Chordal.PostOrder
 import ClarabelModel.Chordal.SuperNode
 import ClarabelModel.Chordal.MergePC
 import ClarabelModel.Chordal.MergeCG
+import ClarabelModel.Chordal.Valid
+import ClarabelModel.Chordal.Filled
 
 open Clarabel Clarabel.Chordal Driver
 
@@ -55,6 +57,62 @@ def parseOps (kv : KV) : Option (List Dsu.Op) := do
     | 2 => some (Dsu.Op.root (a.getD i 0))
     | _ => none)
 
+/-- the pattern edges `(ei[k], ej[k])` of an analysis request (original coordinates) -/
+def parseEdges (kv : KV) : Option (List (Nat × Nat)) := do
+  let ei ← kv.nats "ei"
+  let ej ← kv.nats "ej"
+  if ei.size != ej.size then none else pure (ei.toList.zip ej.toList)
+
+/-- channels `analysis` / `analysis.cg`: the model's clique tree and ordering, followed by
+    `valid=<0|1>` = the machine-checked validity predicate `validCliqueTreeB` evaluated on the
+    MODEL's output for the request's pattern (`n`, `ei`, `ej`).  The second component is a
+    diagnostic for stderr: the first failing clause when `valid=0`. -/
+def analysis (kv : KV) : String × Option String :=
+  match parseLPat kv, kv.nats "ordering", kv.str "merge", parseEdges kv with
+  | some L, some ordering, some merge, some edges =>
+    match sparsityPatternNewAll L ordering merge with
+    | .ok r =>
+      -- `validCliqueTreeB L.n edges r.1 r.2 = why.isNone` by definition (evaluated once)
+      let why := validCliqueTreeWhy L.n edges r.1 r.2
+      (s!"{fmtTree r.1} ordering={fmtNats r.2} valid={fmtBool why.isNone}",
+       why.map (fun w => s!"cm_c17: model clique tree INVALID, first failing clause: {w}"))
+    | .error e => (fmtErr e, none)
+  | _, _, _, _ => ("bad-request", none)
+
+/-- a clique tree in the wire format of `fmtTree` -/
+def parseTree (kv : KV) : Option SuperNodeTree := do
+  let snode ← parseSets kv "snode"
+  let separators ← parseSets kv "sep"
+  let snodeParent ← kv.nats "par"
+  let snodeChildren ← parseSets kv "ch"
+  let snodePost ← kv.nats "spost"
+  let post ← kv.nats "post"
+  let has ← kv.nat "hasnblk"
+  let nb ← kv.nats "nblk"
+  let nCliques ← kv.nat "ncl"
+  pure { snode, snodePost, snodeParent, snodeChildren, post, separators,
+         nblk := if has != 0 then some nb else none, nCliques }
+
+/-- channel `tree.valid`: verdict of `validCliqueTreeB` on a given (typically corrupted) tree;
+    second component: the first failing clause, for stderr -/
+def treeValid (kv : KV) : String × Option String :=
+  match kv.nat "n", parseEdges kv, parseTree kv, kv.nats "ordering" with
+  | some n, some edges, some t, some ordering =>
+    let why := validCliqueTreeWhy n edges t ordering
+    (s!"valid={fmtBool why.isNone}", why.map (fun w => s!"cm_c17: tree.valid: first failing clause: {w}"))
+  | _, _, _, _ => ("bad-request", none)
+
+/-- channel `hyp.analysis`: the hypotheses of the pipeline theorems (`C17.analysis_none`,
+    `C17.analysis_parent_child`, …) evaluated on the request: `filled` = `LPat.filledB L`
+    (⇔ `LPat.Filled`), `perm` = `ordering` is a permutation of `0..n`, `edges` = every pattern
+    entry is an entry of `L` at the positions of its endpoints in `ordering`
+    (`LPat.edgesInB`) -/
+def analysisHyp (kv : KV) : String :=
+  match parseLPat kv, kv.nats "ordering", parseEdges kv with
+  | some L, some ordering, some edges =>
+    s!"filled={fmtBool L.filledB} perm={fmtBool (clOrderingPerm L.n ordering)} edges={fmtBool (L.edgesInB ordering edges)}"
+  | _, _, _ => "bad-request"
+
 def handle (ch : String) (kv : KV) : String :=
   match ch with
   | "dsu.ops" =>
@@ -97,20 +155,37 @@ def handle (ch : String) (kv : KV) : String :=
     match parseLPat kv with
     | some L => fmtME fmtTree (SuperNodeTree.new L)
     | none => "bad-request"
-  | "analysis" =>
-    match parseLPat kv, kv.nats "ordering", kv.str "merge" with
-    | some L, some ordering, some merge =>
-      fmtME (fun (r : SuperNodeTree × Array Nat) => s!"{fmtTree r.1} ordering={fmtNats r.2}")
-        (sparsityPatternNewAll L ordering merge)
-    | _, _, _ => "bad-request"
-  | "analysis.cg" =>
-    match parseLPat kv, kv.nats "ordering", kv.str "merge" with
-    | some L, some ordering, some merge =>
-      fmtME (fun (r : SuperNodeTree × Array Nat) => s!"{fmtTree r.1} ordering={fmtNats r.2}")
-        (sparsityPatternNewAll L ordering merge)
-    | _, _, _ => "bad-request"
+  | "analysis" => (analysis kv).1
+  | "analysis.cg" => (analysis kv).1
+  | "tree.valid" => (treeValid kv).1
+  | "hyp.analysis" => analysisHyp kv
   | _ => "unknown-channel"
 
 end DriverC17
 
-def main : IO Unit := runMain DriverC17.handle
+/-- `Driver.loop` plus a stderr diagnostic (the first failing clause) whenever the validity
+    checker rejects a tree; stdout is exactly `handle`'s response -/
+partial def DriverC17.loopLog (h out err : IO.FS.Stream) : IO Unit := do
+  let line ← h.getLine
+  if line.isEmpty then return ()
+  let (ch, kv) := parseLine line
+  if ch == "" then
+    out.putStrLn "empty"
+  else
+    if ch == "analysis" || ch == "analysis.cg" || ch == "tree.valid" then
+      let r := if ch == "tree.valid" then DriverC17.treeValid kv else DriverC17.analysis kv
+      out.putStrLn r.1
+      match r.2 with
+      | some msg => err.putStrLn msg
+      | none => pure ()
+    else
+      out.putStrLn (DriverC17.handle ch kv)
+  DriverC17.loopLog h out err
+
+def main : IO Unit := do
+  let stdin ← IO.getStdin
+  let stdout ← IO.getStdout
+  let stderr ← IO.getStderr
+  DriverC17.loopLog stdin stdout stderr
+  stdout.flush
+
